@@ -29,7 +29,8 @@ import (
 // ---- case description (self-contained, replayable) --------------------------
 
 type OutSpec struct {
-	Type   string `json:"type"`   // script | submit | claim
+	Type   string `json:"type"`   // script | submit | claim | raw (any output type code, see Code)
+	Code   int    `json:"code,omitempty"`
 	Amount string `json:"amount"` // decimal XIN-style amount
 	To     int    `json:"to"`     // user index (script outputs)
 	Seed   string `json:"seed"`   // ghost key seed tag
@@ -129,6 +130,8 @@ type hist struct {
 	ids     map[string]uint64
 }
 
+func bigInt(v int64) *big.Int { return big.NewInt(v) }
+
 func phash(v *common.VersionedTransaction) []byte { x := v.PayloadHash(); return x[:] }
 
 func unitsOf(x common.Integer) *big.Int { return common.VerifIntegerBig(x) }
@@ -178,6 +181,18 @@ func (h *hist) build(sp TxSpec) *builtTx {
 					Withdrawal: &common.WithdrawalData{Address: "verif-destination", Tag: ""}})
 			case "claim":
 				tx.Outputs = append(tx.Outputs, &common.Output{Type: common.OutputTypeWithdrawalClaim, Amount: amt})
+			case "raw":
+				switch uint8(o.Code) {
+				case common.OutputTypeWithdrawalSubmit:
+					tx.Outputs = append(tx.Outputs, &common.Output{Type: uint8(o.Code), Amount: amt,
+						Withdrawal: &common.WithdrawalData{Address: "verif-destination", Tag: ""}})
+				case common.OutputTypeWithdrawalClaim, common.OutputTypeNodePledge, common.OutputTypeNodeCancel, common.OutputTypeNodeAccept:
+					// kernel multisig outputs carry no keys, script or mask
+					tx.Outputs = append(tx.Outputs, &common.Output{Type: uint8(o.Code), Amount: amt})
+				default: // every other code must look like a script output to pass validateOutputs
+					u := f.users[o.To%len(f.users)]
+					tx.AddOutputWithType(uint8(o.Code), []*common.Address{&u}, common.NewThresholdScript(1), amt, seedBytes(o.Seed))
+				}
 			default:
 				u := f.users[o.To%len(f.users)]
 				tx.AddScriptOutput([]*common.Address{&u}, common.NewThresholdScript(1), amt, seedBytes(o.Seed))
@@ -600,7 +615,7 @@ func run(c *vh.Ctx, cs Case) {
 
 func main() {
 	c := vh.Start("C16")
-	c.Rep.Rule = "one case = one ledger history on a fresh real node+store (3-8 snapshot batches of 1-4 deposits/transfers/withdrawals/claims, direct mint steps, re-included stale transactions; deposit amounts drawn around the remaining capacity); non-trivial = at least one batch passed validateSnapshotTransaction and reached WriteSnapshot; distinct = digest of the step specs"
+	c.Rep.Rule = "one case = one ledger history on a fresh real node+store (3-8 snapshot batches of 1-4 deposits/transfers/withdrawals/claims, direct mint steps, re-included stale transactions; deposit amounts drawn around the remaining capacity; output shape sweep: every transaction kind with every output type code at every output position); non-trivial = at least one batch passed validateSnapshotTransaction and reached WriteSnapshot; distinct = digest of the step specs"
 	if c.Replay != "" {
 		var cs Case
 		c.ReplayCase(&cs)
@@ -611,6 +626,10 @@ func main() {
 	for _, cs := range corpus() {
 		run(c, cs)
 	}
+	for _, cs := range shapeCorpus() {
+		run(c, cs)
+	}
+	shapeGenerate(c)
 	n := c.Scale(30, 900)
 	for i := 0; i < n; i++ {
 		generate(c, i)
